@@ -37,6 +37,7 @@ import (
 	"net"
 	"os"
 	"strings"
+	"syscall"
 )
 
 const (
@@ -181,6 +182,16 @@ func ElideError(err error) string {
 	case *net.UnknownNetworkError:
 		return "unknown network " + elidedAddr
 	case *net.OpError:
+		// The wrapped error is usually a syscall error, which is safe to log
+		// as is, but it can also be another net.Error that includes an
+		// address (eg: a DNSError from a failed lookup, an AddrError, or a
+		// nested OpError), so it needs to be sanitized as well.
+		var innerErr net.Error
+		if errors.As(t.Err, &innerErr) {
+			if _, ok := innerErr.(syscall.Errno); !ok {
+				return t.Op + ": " + ElideError(t.Err)
+			}
+		}
 		return t.Op + ": " + t.Err.Error()
 	default:
 		// For unknown error types, do the conservative thing and only log the
